@@ -63,6 +63,30 @@ bool CmpEdgeInf::operator()(const EdgeInf *a, const EdgeInf *b) const
 }
 
 
+// Comparison for the ordered set of terminal vertices.
+bool CmpVertInfPtrById::operator()(const VertInf *lhs, const VertInf *rhs) const
+{
+    if (lhs == rhs)
+    {
+        return false;
+    }
+    if (lhs->id != rhs->id)
+    {
+        return lhs->id < rhs->id;
+    }
+    // Dummy orthogonal vertices share an ID, so order these by position.
+    if (lhs->point.x != rhs->point.x)
+    {
+        return lhs->point.x < rhs->point.x;
+    }
+    if (lhs->point.y != rhs->point.y)
+    {
+        return lhs->point.y < rhs->point.y;
+    }
+    return lhs < rhs;
+}
+
+
 struct delete_vertex
 {
     void operator()(VertInf *ptr)
@@ -77,7 +101,7 @@ MinimumTerminalSpanningTree::MinimumTerminalSpanningTree(Router *router,
         std::set<VertInf *> terminals, JunctionHyperedgeTreeNodeMap *hyperedgeTreeJunctions)
     : router(router),
       isOrthogonal(true),
-      terminals(terminals),
+      terminals(terminals.begin(), terminals.end()),
       hyperedgeTreeJunctions(hyperedgeTreeJunctions),
       m_rootJunction(nullptr),
       bendPenalty(2000),
@@ -298,7 +322,7 @@ void MinimumTerminalSpanningTree::constructSequential(void)
     if (router->debugHandler())
     {
         router->debugHandler()->beginningHyperedgeReroutingWithEndpoints(
-                terminals);
+                std::set<VertInf *>(terminals.begin(), terminals.end()));
     }
 #endif
 
@@ -312,7 +336,7 @@ void MinimumTerminalSpanningTree::constructSequential(void)
         k->pathNext = nullptr;
         k->setSPTFRoot(k);
     }
-    for (std::set<VertInf *>::iterator ti = terminals.begin();
+    for (OrderedVertexSet::iterator ti = terminals.begin();
             ti != terminals.end(); ++ti)
     {
         VertInf *t = *ti;
@@ -655,12 +679,12 @@ void MinimumTerminalSpanningTree::constructInterleaved(void)
     if (router->debugHandler())
     {
         router->debugHandler()->beginningHyperedgeReroutingWithEndpoints(
-                terminals);
+                std::set<VertInf *>(terminals.begin(), terminals.end()));
     }
 #endif
 
     COLA_ASSERT(rootVertexPointers.empty());
-    for (std::set<VertInf *>::iterator ti = terminals.begin();
+    for (OrderedVertexSet::iterator ti = terminals.begin();
             ti != terminals.end(); ++ti)
     {
         VertInf *t = *ti;
@@ -1012,7 +1036,7 @@ void MinimumTerminalSpanningTree::commitToBridgingEdge(EdgeInf *e)
     if (router->debugHandler())
     {
         router->debugHandler()->mtstCommitToEdge(vert1, vert2, true);
-        for (std::set<VertInf *>::iterator ti = terminals.begin();
+        for (OrderedVertexSet::iterator ti = terminals.begin();
                 ti != terminals.end(); ++ti)
         {
             drawForest(*ti, nullptr);
@@ -1079,7 +1103,7 @@ void MinimumTerminalSpanningTree::commitToBridgingEdge(EdgeInf *e)
     vHeap = vHeapNew;
 
     // Reset all terminals to zero.
-    for (std::set<VertInf *>::iterator v2 = terminals.begin();
+    for (OrderedVertexSet::iterator v2 = terminals.begin();
             v2 != terminals.end(); ++v2)
     {
         COLA_ASSERT((*v2)->sptfDist == 0);
